@@ -380,11 +380,17 @@ def check_lex_updates(rep, prog):
     for fn in prog.fns('parmcb::lex_dijkstra'):
         n += 1
         cfg = fn.cfg
-        pids = fn.param_ids          # g, weight_map, s, dist_map, pred_map
+        pids = fn.param_ids          # g, weight_map, [index_map,] s, dist_map, pred_map
         if len(pids) < 5:
             rep.undecided('R12c', fn.body, fn, 'update sites of lex_dijkstra', 'unexpected signature')
             continue
-        src, distp, predp = pids[2], pids[3], pids[4]
+        # an overload that only forwards to a sibling overload (added parameters with defaults spelled out) is judged through that sibling
+        if not [x for x in fn.walk() if x.k in ('WhileStmt', 'ForStmt', 'CXXForRangeStmt')] and \
+                [x for x in fn.walk() if x.k == 'CallExpr' and x.callee and x.callee['g'] == fn.g and len(x.args()) != len(pids)]:
+            n -= 1
+            continue
+        # the source is the parameter in front of the two output maps (an index map may sit between the weight map and the source)
+        src, distp, predp = pids[-3], pids[-2], pids[-1]
         class _Store(object):
             # put(map, key, value)  /  map[key] = value
             def __init__(self, node, m, k_, v_):
@@ -408,6 +414,8 @@ def check_lex_updates(rep, prog):
                 if l_.k == 'CXXOperatorCallExpr' and l_.op == '[]' and len(l_.c) == 3 and ex.var_of(l_.c[1]) is not None and \
                         'property_map' in ((prog.base_type(l_.c[1].strip_all().j.get('t')) or {}).get('canon') or ''):
                     puts.append(_Store(c, l_.c[1], l_.c[2], c.c[2]))
+                elif l_.k == 'CallExpr' and l_.callee and l_.callee['g'] == 'boost::get' and len(l_.args()) == 2 and ex.var_of(l_.args()[0]) is not None:
+                    puts.append(_Store(c, l_.args()[0], l_.args()[1], c.c[2]))      # T &slot = get(map, w); slot = value;
         lexmap = None
         for c in puts:
             mv = ex.var_of(c.args()[0])
@@ -953,6 +961,21 @@ def check_sorted_inputs(rep, prog, files=('lex_dijkstra', 'sptrees', 'cycles')):
                     continue
                 unsorted_fill = None
                 if cv is not None and prog.vars[cv]['kind'] == 'local':
+                    # a local initialised from a helper that returns a sequence it has sorted (`const auto tree_edges = sorted_tree_edges();`)
+                    dv_ = ex.unique_def(fn, cv)
+                    dvs = dv_.strip_all() if dv_ is not None else None
+                    helper_sorted = None
+                    if dvs is not None and dvs.k in ex.CALL_KINDS and dvs.callee and dvs.callee.get('in_repo') and dvs.callee_id is not None:
+                        hf = prog.fn_of_fref(dvs.callee_id)
+                        if hf is not None and hf.body is not None:
+                            rets_ = ex.returns_of(hf)
+                            helper_sorted = bool(rets_) and all(r_.c and ex.var_of(r_.c[0]) is not None and ex.sorted_before(hf, ex.var_of(r_.c[0]), r_) for r_ in rets_)
+                    if helper_sorted:
+                        rep.ok('R12h', d, fn, what, 'returned sorted by `%s`' % dvs.callee['name'])
+                        continue
+                    if helper_sorted is False or (dvs is not None and dvs.k in ex.CALL_KINDS):
+                        rep.undecided('R12h', d, fn, what, '`%s` comes from `%s`; whether that returns a sorted sequence is not decided' % (cont.text(30), dvs.text(30)))
+                        continue
                     unsorted_fill = 'local sequence without a dominating std::sort'
                 elif cont.k == 'MemberExpr' and cont.c:
                     # a data member: look for a construction of the record from a local sequence that is appended to and not sorted
